@@ -160,6 +160,13 @@ class TU:
                     if 0 <= ln < len(live):
                         bad.setdefault(ln, "error in instantiation (see header diagnostics)")
             if not bad:
+                # the diagnostics name no wrapper line (e.g. "always_inline function requires target
+                # feature ..." reported inside a header): isolate the failing wrappers by bisection
+                first = _ERR.search(r.stderr)
+                msg = first.group(4)[:300] if first else r.stderr[-300:]
+                for ln in self._bisect(d, live, list(range(len(live)))):
+                    bad[ln] = msg
+            if not bad:
                 raise Broken("wrapper TU %s/%s does not compile and no wrapper line is "
                              "implicated: %s" % (self.cfg.name, self.tag, r.stderr[-1500:]))
             for ln in sorted(bad):
@@ -182,6 +189,36 @@ class TU:
         with open(ms, "w") as fh:
             json.dump(missing, fh)
         return js, missing
+
+
+def _tu_bisect(self, d, live, idxs):
+    """indices of wrappers that fail to compile on their own (header + that subset)"""
+    def ok(sub):
+        src = os.path.join(d, "bisect.cpp")
+        with open(src, "w") as fh:
+            fh.write("\n".join(self.header) + "\n")
+            for i in sub:
+                fh.write(live[i][1] + "\n")
+        r = _compile_ir(src, os.path.join(d, "bisect.ll"), self.cfg, self.std, self.opt, self.extra)
+        return r.returncode == 0
+    out = []
+    stack = [idxs]
+    budget = 120
+    while stack and budget > 0:
+        sub = stack.pop()
+        budget -= 1
+        if ok(sub):
+            continue
+        if len(sub) == 1:
+            out.append(sub[0])
+            continue
+        h = len(sub) // 2
+        stack.append(sub[:h])
+        stack.append(sub[h:])
+    return out
+
+
+TU._bisect = _tu_bisect
 
 
 def ensure_tools():
